@@ -100,7 +100,8 @@ func (s *Store) Append(ctx context.Context, event *eventbus.Event) (eventbus.Off
 		Data: event.Data,
 	}
 	if !event.Timestamp.IsZero() {
-		writeEvent.Timestamp = event.Timestamp.Format(time.RFC3339Nano)
+		// RFC 3339 has no seconds in the zone offset: format the instant in UTC
+		writeEvent.Timestamp = event.Timestamp.UTC().Format(time.RFC3339Nano)
 	}
 
 	if err := writer.SendJSON(writeEvent, nil); err != nil {
